@@ -137,6 +137,19 @@ def gen_cases(ctx):
     picked = [c for c in cases if c['kind'] in ('valid', 'missing-field', 'missing-file') and c['via'] == 'call'][:ncli]
     for c in picked:
         cases.append(dict(c, via='cli'))
+    # file names are names, not patterns: characters that a shell would expand are ordinary in an argument that reaches the
+    # program (quoted, or produced by another program); a missing one is reported like any other missing file
+    def small(rows):
+        return {'compression': None, 'cols': [['pos', '<f4', [rows, 3], bytes(rng.randrange(256) for _ in range(rows * 12)).hex()],
+                                              ['pid', '<i8', [rows], bytes(rng.randrange(256) for _ in range(rows * 8)).hex()]]}
+    # (no '?' / '*' in the names of files that exist: the asdf WRITER used by this harness parses its target as a URI)
+    odd = ['slab[3].asdf', 'halo_info_[A].asdf', 'part[0-9].asdf', 'a b.asdf', '[x]', 'plain.asdf', 'dash.asdf', 'x[!y]z.asdf']
+    for via in ('cli', 'call'):
+        names = rng.sample(odd, 4)
+        cases.append({'kind': 'valid', 'files': [small(rng.choice([1, 2, 3])) for _ in names], 'names': names, 'fields': ['pid', 'pos'],
+                      'isatty': False, 'via': via})
+        names = ['plain.asdf', rng.choice(['halo_*.asdf', 'slab[0-9].asdf', 'f?.asdf']), 'other.asdf']
+        cases.append({'kind': 'missing-file', 'files': [small(2), None, small(1)], 'names': names, 'fields': ['pos'], 'isatty': False, 'via': via})
     return cases
 
 
@@ -150,9 +163,10 @@ def _write_files(tmp, case):
     _register_extension()
     paths = []
     for i, f in enumerate(case['files']):
-        path = os.path.join(tmp, f'f{i}.asdf')
+        names = case.get('names')
+        path = os.path.join(tmp, names[i] if names else f'f{i}.asdf')
         if f is None:
-            paths.append(os.path.join(tmp, f'does_not_exist_{i}.asdf'))
+            paths.append(os.path.join(tmp, names[i] if names else f'does_not_exist_{i}.asdf'))
             continue
         cols = {}
         for (nm, dt, shape, hx) in f['cols']:
